@@ -12,6 +12,8 @@ package main
 
 import (
 	"fmt"
+	"os"
+	"path/filepath"
 	"regexp"
 	"sort"
 	"strconv"
@@ -347,6 +349,11 @@ func serFields(fs []parse.Field) string {
 
 // runCase prints the case, obs and sobs lines of one case. It reports false if the case was
 // not emitted (projection text outside the grammar: C07's business).
+// sharedFilter, when non-nil, is used instead of a fresh NewFilter(expr): one Filter object
+// evaluated on several results in a row (only for cases without projections, because Parse
+// modifies the filter).
+var sharedFilter *benchproc.Filter
+
 func runCase(id int, kind, expr string, rs *resSpec, projTexts []string, extraTags []string) (emitted bool) {
 	casePrinted := false
 	defer func() {
@@ -460,7 +467,13 @@ func runCase(id int, kind, expr string, rs *resSpec, projTexts []string, extraTa
 	casePrinted = true
 
 	// ---- the real code, public API only
-	f, err := benchproc.NewFilter(expr)
+	var f *benchproc.Filter
+	var err error
+	if sharedFilter != nil && len(projTexts) == 0 {
+		f = sharedFilter
+	} else {
+		f, err = benchproc.NewFilter(expr)
+	}
 	if err != nil {
 		hx.Printf("obs %d new=%s tnew=%s\n", id, newErrTag(err), newErrTagText(err))
 		return true
@@ -510,6 +523,19 @@ func runCase(id int, kind, expr string, rs *resSpec, projTexts []string, extraTa
 	if testBits(&m, n) != test || m.All() != all || m.Any() != any {
 		bad("first-match-changed-by-second")
 	}
+	// … also when the later call is about a DIFFERENT result of the same size (units rotated by
+	// one position): the Match the caller holds must not share its mask with later calls
+	other := res.Clone()
+	for i := range other.Values {
+		j := (i + 1) % n
+		other.Values[i].Unit, other.Values[i].OrigUnit = res.Values[j].Unit, res.Values[j].OrigUnit
+	}
+	other.Name = append(other.Name[:0:0], "Other"...)
+	f.Match(other)
+	held := testBits(&m, n)
+	if held != test || m.All() != all || m.Any() != any {
+		bad("match-aliased-by-a-later-call")
+	}
 	oob := ""
 	for _, i := range []int{-1, n, n + 1, n + 31, n + 32} {
 		oob += b01(m.Test(i))
@@ -534,17 +560,24 @@ func runCase(id int, kind, expr string, rs *resSpec, projTexts []string, extraTa
 		bad("apply-modified-name-or-config")
 	}
 	pvS := hx.HexListS(pv)
+	// htest: the first Match read after the second call / the second Match (the driver computes
+	// both in its heap model, where masks are cells updated in place)
+	htest := "na"
+	if kind != "p" {
+		htest = testBits(&m, n) + "/" + testBits(&m2, n)
+	}
 	// the t* fields are the same real observations once more: the driver computes them a second
 	// time from the expression TEXT (parser model of C07 composed with the evaluator model)
-	hx.Printf("obs %d new=ok tnew=ok perr=none pv=%s n=%d test=%s oob=%s all=%s any=%s apply=%s flag=%s fapply=%s fflag=%s omiss=0 glue=%s ttest=%s tall=%s tany=%s tapply=%s tflag=%s\n",
+	hx.Printf("obs %d new=ok tnew=ok perr=none pv=%s n=%d test=%s oob=%s all=%s any=%s apply=%s flag=%s fapply=%s fflag=%s omiss=0 glue=%s ttest=%s tall=%s tany=%s tapply=%s tflag=%s htest=%s\n",
 		id, pvS, n, test, oob, b01(all), b01(any), idxList(r1.Values), b01(flag1), idxList(r2.Values), b01(flag2), glue,
-		test, b01(all), b01(any), idxList(r2.Values), b01(flag2))
+		test, b01(all), b01(any), idxList(r2.Values), b01(flag2), htest)
 	// what the property speaks about; for n = 0 All/Any/flag are a boundary (see notes/C06.md)
 	allS, anyS, flagS := "n0", "n0", "n0"
 	if n > 0 {
 		allS, anyS, flagS = b01(all), b01(any), b01(flag2)
 	}
-	hx.Printf("sobs %d pv=%s test=%s oob=%s all=%s any=%s apply=%s flag=%s\n", id, pvS, test, oob, allS, anyS, idxList(r2.Values), flagS)
+	// test= is what the caller's Match says at the end, after the later calls above
+	hx.Printf("sobs %d pv=%s test=%s oob=%s all=%s any=%s apply=%s flag=%s\n", id, pvS, held, oob, allS, anyS, idxList(r2.Values), flagS)
 	return true
 }
 
@@ -879,6 +912,113 @@ func readerResults() []*resSpec {
 	return out
 }
 
+// ---- corpus/C06/*.txt (format described at the top of corpus/C06/cases.txt)
+
+type fileCase struct {
+	group string
+	expr  string
+	rs    *resSpec
+	projs []string
+}
+
+func parseValues(spec string) []valSpec {
+	var out []valSpec
+	if spec == "" {
+		return out
+	}
+	for _, it := range strings.Split(spec, ",") {
+		count := 1
+		if i := strings.LastIndexByte(it, '*'); i >= 0 {
+			if c, err := strconv.Atoi(it[i+1:]); err == nil {
+				count = c
+				it = it[:i]
+			}
+		}
+		v := valSpec{unit: it}
+		if i := strings.IndexByte(it, '<'); i >= 0 {
+			v = valSpec{unit: it[:i], orig: it[i+1:]}
+		}
+		for ; count > 0; count-- {
+			out = append(out, v)
+		}
+	}
+	return out
+}
+
+func readCorpusFiles() []fileCase {
+	root := os.Getenv("VERIF_ROOT")
+	if root == "" {
+		return nil
+	}
+	files, _ := filepath.Glob(filepath.Join(root, "corpus", "C06", "*.txt"))
+	sort.Strings(files)
+	var out []fileCase
+	for _, fn := range files {
+		data, err := os.ReadFile(fn)
+		if err != nil {
+			continue
+		}
+		for _, line := range strings.Split(string(data), "\n") {
+			line = strings.TrimRight(line, "\r")
+			if line == "" || strings.HasPrefix(line, "#") {
+				continue
+			}
+			fs := strings.Split(line, "|")
+			if len(fs) < 5 {
+				fmt.Fprintf(os.Stderr, "corpus: bad line %q\n", line)
+				os.Exit(3)
+			}
+			rs := &resSpec{name: fs[2]}
+			if fs[3] != "" {
+				for _, kv := range strings.Split(fs[3], ",") {
+					file := true
+					if strings.HasPrefix(kv, "!") {
+						file, kv = false, kv[1:]
+					}
+					i := strings.IndexByte(kv, '=')
+					rs.cfg = append(rs.cfg, benchfmt.Config{Key: kv[:i], Value: []byte(kv[i+1:]), File: file})
+				}
+			}
+			rs.vals = parseValues(fs[4])
+			fc := fileCase{group: fs[0], expr: fs[1], rs: rs}
+			if len(fs) > 5 && fs[5] != "" {
+				fc.projs = strings.Split(fs[5], ";")
+			}
+			out = append(out, fc)
+		}
+	}
+	return out
+}
+
+// variant returns rs with other written units (same base units) and possibly another count:
+// results that share base units but differ in the unit as written.
+func variant(r *hx.Rand, rs *resSpec) *resSpec {
+	out := &resSpec{name: rs.name, cfg: rs.cfg}
+	written := map[string][]string{
+		"sec/op": {"ns/op", "us/op", "ms/op", ""}, "B/s": {"MB/s", "KB/s", ""}, "B/op": {"KB/op", ""},
+	}
+	for _, v := range rs.vals {
+		if alts, ok := written[v.unit]; ok && r.Chance(2, 3) {
+			v.orig = hx.Pick(r, alts)
+		}
+		out.vals = append(out.vals, v)
+	}
+	switch r.Intn(4) {
+	case 0:
+		if len(out.vals) > 0 {
+			out.vals = out.vals[:r.Intn(len(out.vals)+1)]
+		}
+	case 1:
+		for k := r.Intn(40); k > 0 && len(rs.vals) > 0; k-- {
+			out.vals = append(out.vals, hx.Pick(r, rs.vals))
+		}
+	}
+	if r.Chance(1, 4) {
+		out.name = hx.Pick(r, []string{"Foo", "Bar", rs.name + "/k=v"})
+	}
+	return out
+}
+
 func replayCase(id int, l string) {
 	get := func(k string) string { v, _ := hx.Field(l, k); return v }
 	rs := &resSpec{name: string(hx.UnHex(get("name")))}
@@ -929,6 +1069,29 @@ func main() {
 			id++
 		}
 	}
+	// permanent corpus files; lines of one group share one Filter object
+	groups := map[string]*benchproc.Filter{}
+	for _, fc := range readCorpusFiles() {
+		kind := "f"
+		if len(fc.projs) > 0 {
+			kind = "p"
+		}
+		tags := []string{"corpus", "file"}
+		sharedFilter = nil
+		if fc.group != "-" && fc.group != "" && kind == "f" {
+			tags = append(tags, "reuse")
+			if g, ok := groups[fc.group]; ok {
+				sharedFilter = g
+			} else if g, err := benchproc.NewFilter(fc.expr); err == nil {
+				groups[fc.group] = g
+				sharedFilter = g
+			}
+		}
+		if runCase(id, kind, fc.expr, fc.rs, fc.projs, tags) {
+			id++
+		}
+		sharedFilter = nil
+	}
 	for _, rs := range readerResults() {
 		for _, e := range readerExprs {
 			if runCase(id, "f", e, rs, nil, []string{"corpus", "reader"}) {
@@ -961,6 +1124,18 @@ func main() {
 		}
 		if runCase(id, kind, expr, rs, pts, nil) {
 			id++
+		}
+		// one Filter object reused on variants of the result (same base units, other written units)
+		if kind == "f" && r.Chance(1, 6) {
+			if g, err := benchproc.NewFilter(expr); err == nil {
+				for k := 2 + r.Intn(2); k > 0; k-- {
+					sharedFilter = g
+					if runCase(id, "f", expr, variant(r, rs), nil, []string{"reuse"}) {
+						id++
+					}
+				}
+				sharedFilter = nil
+			}
 		}
 	}
 }
